@@ -58,3 +58,101 @@ fn c11_sleep_denied() {
     std::mem::forget(rt);
 }
 }
+
+// ------------------------------------------------------------------------------------------------ C06 / C07
+/// `if(c, a, b)`: an error condition is returned and neither branch is evaluated; otherwise exactly the selected
+/// branch is evaluated, it alone receives the caller's tail flag, and its outcome (value or error) is the result
+native_harness_rec! {
+#[kani::unwind(4)]
+fn c06_if_native() {
+    let mut root = RootCompilationScope::<P, P, P>::new();
+    add_generic_if(&mut root).unwrap();
+    let nc = last_native(&root);
+    let rt: Rt = no_limits();
+    let ns = crate::runtime_scope::verif_kani::bare_scope();
+    let cond_err: bool = kani::any();
+    let c: bool = kani::any();
+    let (ea, eb): (bool, bool) = (kani::any(), kani::any());
+    let tca: bool = kani::any();
+    let args = vec![
+        if cond_err { err_i(0, &rt) } else { val(XValue::Bool(c), &rt) },
+        if ea { err_i(1, &rt) } else { int(LazyBigint::Short(11), &rt) },
+        if eb { err_i(2, &rt) } else { int(LazyBigint::Short(12), &rt) },
+    ];
+    let r = nc(&args, &ns, tca, rt.clone());
+    let (n, tags, tails) = eval_log();
+    let got = outcome_tag(&r);
+    if cond_err {
+        assert!(got == Some(err_tag(0)), "an error condition propagates");
+        assert!(n == 1 && !tails[0], "no branch is evaluated when the condition is an error");
+    } else {
+        let want = if c { if ea { err_tag(1) } else { 11 } } else { if eb { err_tag(2) } else { 12 } };
+        assert!(got == Some(want), "the result is the selected branch's outcome");
+        assert!(n == 2, "exactly the condition and the selected branch are evaluated");
+        assert!(tags[0] == 1000 + c as i64 && !tails[0], "the condition is evaluated first, never in tail position");
+        assert!(tags[1] == want && tails[1] == tca, "the selected branch receives the caller's tail flag");
+    }
+    kani::cover!(!cond_err && c && tca, "then-branch in tail position");
+    kani::cover!(!cond_err && !c && eb, "else-branch is an error value");
+    kani::cover!(cond_err, "error condition");
+    std::mem::forget(r);
+    std::mem::forget(args);
+    std::mem::forget(ns);
+    std::mem::forget(root);
+    std::mem::forget(rt);
+}
+}
+/// `if_error(a, b)`: a non-error first argument is returned without evaluating the second; otherwise the second is
+/// evaluated (with the caller's tail flag) and is the result
+native_harness_rec! {
+#[kani::unwind(4)]
+fn c06_if_error_native() {
+    let mut root = RootCompilationScope::<P, P, P>::new();
+    add_generic_if_error(&mut root).unwrap();
+    let nc = last_native(&root);
+    let rt: Rt = no_limits();
+    let ns = crate::runtime_scope::verif_kani::bare_scope();
+    let (ea, eb): (bool, bool) = (kani::any(), kani::any());
+    let tca: bool = kani::any();
+    let args = vec![
+        if ea { err_i(1, &rt) } else { int(LazyBigint::Short(11), &rt) },
+        if eb { err_i(2, &rt) } else { int(LazyBigint::Short(12), &rt) },
+    ];
+    let r = nc(&args, &ns, tca, rt.clone());
+    let (n, tags, tails) = eval_log();
+    let got = outcome_tag(&r);
+    if !ea {
+        assert!(got == Some(11) && n == 1, "a value is returned as is; the handler is not evaluated");
+    } else {
+        assert!(got == Some(if eb { err_tag(2) } else { 12 }), "the handler's outcome replaces the error");
+        assert!(n == 2 && tags[0] == err_tag(1) && !tails[0] && tails[1] == tca, "handler evaluated second, with the caller's tail flag");
+    }
+    kani::cover!(ea && eb, "handler is itself an error");
+    kani::cover!(ea && tca, "handler in tail position");
+    std::mem::forget(r);
+    std::mem::forget(args);
+    std::mem::forget(ns);
+    std::mem::forget(root);
+    std::mem::forget(rt);
+}
+}
+/// `is_error(a)` inspects without propagating
+native_harness_rec! {
+#[kani::unwind(4)]
+fn c06_is_error_native() {
+    let mut root = RootCompilationScope::<P, P, P>::new();
+    add_generic_is_error(&mut root).unwrap();
+    let nc = last_native(&root);
+    let rt: Rt = no_limits();
+    let ns = crate::runtime_scope::verif_kani::bare_scope();
+    let ea: bool = kani::any();
+    let args = vec![if ea { err_i(1, &rt) } else { int(LazyBigint::Short(11), &rt) }];
+    let r = nc(&args, &ns, false, rt.clone());
+    assert!(outcome_tag(&r) == Some(1000 + ea as i64), "is_error is true exactly for error values and is itself never an error");
+    std::mem::forget(r);
+    std::mem::forget(args);
+    std::mem::forget(ns);
+    std::mem::forget(root);
+    std::mem::forget(rt);
+}
+}
